@@ -5,14 +5,26 @@ import os
 
 VERIF = os.path.dirname(os.path.dirname(os.path.abspath(__file__)))
 
-# id -> (level, technique, text, note, design_ref)
-CHECKS = {
-    "C01": ("model_checking",
-            "regime-graph exploration: exhaustive lattice + branch-path-signature bisection to adjacent doubles, mpmath definition oracle on every evaluated double",
-            "Every one-argument function is evaluated on a finite cover of its domain (log lattice, literals harvested from the source, rationals) and, around every change of evaluation regime located by bisecting sancov branch-path signatures down to adjacent doubles, on all doubles within +-W ulp on both sides; each value is compared with an independent >=50-digit mpmath transcription of the defining formula. Exhaustive within lattice density K and ulp width W; says nothing about doubles strictly between lattice points inside one regime.",
-            "trusted: mpmath polylog/clsin/log, clang sancov instrumentation (only used to locate boundaries, never compared to a baseline), tolerance rule of DESIGN 2.4",
-            "3/C01"),
-}
+import importlib
+import sys
+sys.path.insert(0, os.path.join(VERIF, "lib"))
+sys.path.insert(0, VERIF)
+
+
+def collect():
+    """every checks/cNN.py that defines META = dict(level, technique, text, note, design_ref) is registered"""
+    out = {}
+    for fn in sorted(os.listdir(os.path.join(VERIF, "checks"))):
+        if not (fn.startswith("c") and fn.endswith(".py") and fn[1:-3].isdigit()):
+            continue
+        mod = importlib.import_module("checks." + fn[:-3])
+        meta = getattr(mod, "META", None)
+        if meta and meta.get("registered", True):
+            out["C" + fn[1:-3]] = (meta["level"], meta["technique"], meta["text"], meta["note"], meta["design_ref"])
+    return out
+
+
+CHECKS = collect()
 
 NOT_YET = {}
 
